@@ -677,10 +677,43 @@ RM_OPS = {"remove_data_point_from_node": "node", "remove_data_point_from_outlier
 ADD_OPS = {"add_data_point_to_node": "node", "add_data_point_to_outliers": "outliers"}
 
 
+# helpers newer than the rules that hand back a copy of a tree with one data point removed
+# (`new_tree = self._copy_without(tree, data_point, node)`): name -> (removal op, position of the data point argument)
+_REMOVING_COPIES = {}
+
+
+def _summarise_removing_copies(prog, fx):
+    _REMOVING_COPIES.clear()
+    for h in prog.functions.values():
+        if not prog.is_new_function(h) or h.cls in (fx.tree_cls, fx.payload_cls) or h.parent is not None:
+            continue
+        ops = [(k, t, c) for k, t, c in _ops(h.node) if k != "copy"]
+        if len(ops) != 1 or ops[0][0] not in RM_OPS or not ops[0][2].args or not isinstance(ops[0][2].args[0], ast.Name):
+            continue
+        k, t, c = ops[0]
+        params = [a.arg for a in h.node.args.posonlyargs + h.node.args.args]
+        if "staticmethod" not in h.decorators and h.cls is not None:
+            params = params[1:]
+        rets = [r for r in walk_no_nested(h.node) if isinstance(r, ast.Return)]
+        defs = [n for n in walk_no_nested(h.node) if isinstance(n, ast.Assign) and any(isinstance(x, ast.Name) and x.id == t for x in n.targets)]
+        fresh = len(defs) == 1 and isinstance(defs[0].value, ast.Call) and isinstance(defs[0].value.func, ast.Attribute) and defs[0].value.func.attr == "copy"
+        if c.args[0].id in params and fresh and rets and all(isinstance(r.value, ast.Name) and r.value.id == t for r in rets) and not any(isinstance(n, (ast.For, ast.While, ast.If, ast.Try)) for n in walk_no_nested(h.node)):
+            _REMOVING_COPIES[h.name] = (k, params.index(c.args[0].id))
+
+
 def _ops(node):
     """Tree-edit calls on a plain name under `node`, in source order: (kind, tree var, call)."""
     out = []
-    for c in sorted((n for n in walk_no_nested(node) if isinstance(n, ast.Call)), key=lambda n: (n.lineno, n.col_offset)):
+    for c in sorted((n for n in walk_no_nested(node) if isinstance(n, (ast.Call, ast.Assign))), key=lambda n: (n.lineno, n.col_offset)):
+        if isinstance(c, ast.Assign):
+            v = c.value
+            if isinstance(v, ast.Call) and len(c.targets) == 1 and isinstance(c.targets[0], ast.Name) and not v.keywords:
+                hn = v.func.attr if isinstance(v.func, ast.Attribute) else (v.func.id if isinstance(v.func, ast.Name) else None)
+                if hn in _REMOVING_COPIES and _REMOVING_COPIES[hn][1] < len(v.args):
+                    k, i = _REMOVING_COPIES[hn]
+                    fake = ast.copy_location(ast.Call(func=ast.Attribute(value=c.targets[0], attr=k, ctx=ast.Load()), args=[v.args[i]], keywords=[]), v)
+                    out.append((k, c.targets[0].id, fake))
+            continue
         if isinstance(c.func, ast.Attribute) and isinstance(c.func.value, ast.Name):
             nm = c.func.attr
             if nm in RM_OPS or nm in ADD_OPS or nm in ("add_subtree", "remove_subtree", "get_subtree", "copy"):
@@ -721,7 +754,10 @@ def rule_L1(ctx, fx):
     prog = ctx.prog
     ctx.rule("L1", "linear use of data points and subtrees in the sampler moves: removed => added back exactly once (same variable, same tree for a clone move); outliers transferred in the same loop body; get/remove_subtree paired on one tree; each graft candidate is a fresh copy grafted once; grafted outliers carried over", 10)
     transfer_classes = {}
+    _summarise_removing_copies(prog, fx)
     for fi in _move_functions(prog, fx):
+        if fi.name in _REMOVING_COPIES and prog.is_new_function(fi):
+            continue  # judged where it is called: the removal is paired with the caller's add
         all_ops = _ops(fi.node)
         kinds = {k for k, _, _ in all_ops}
         if not (kinds & (set(RM_OPS) | {"add_subtree", "remove_subtree", "get_subtree"})) and not _outlier_loops(fi):
@@ -1162,10 +1198,29 @@ class _TreeTyped:
                 return (True, "")
             if isinstance(base, ast.Name):
                 apps = [c for c in calls(fi.node) if isinstance(c.func, ast.Attribute) and c.func.attr == "append" and u(c.func.value) == base.id]
+                prod = None
+                if not apps:
+                    # a list produced by a helper of the same class / module, or by a comprehension
+                    defs = [n.value for n in walk_no_nested(fi.node) if isinstance(n, ast.Assign) and any(isinstance(t, ast.Name) and t.id == base.id for t in n.targets)]
+                    if len(defs) == 1 and isinstance(defs[0], ast.ListComp):
+                        return self.expr(defs[0].elt, fi, stack, depth + 1)
+                    if len(defs) == 1 and isinstance(defs[0], ast.Call):
+                        d = defs[0]
+                        if isinstance(d.func, ast.Attribute) and u(d.func.value) in ("self", "cls") and fi.cls is not None:
+                            prod = self.prog.method(fi.cls, d.func.attr)
+                        elif isinstance(d.func, ast.Name):
+                            prod = self.prog.resolve_function(d.func.id, fi.module)
+                        if prod is not None:
+                            rets = [n for n in walk_no_nested(prod.node) if isinstance(n, ast.Return)]
+                            if len(rets) == 1 and isinstance(rets[0].value, ast.Name):
+                                lst2 = rets[0].value.id
+                                apps = [c for c in calls(prod.node) if isinstance(c.func, ast.Attribute) and c.func.attr == "append" and u(c.func.value) == lst2]
+                            elif len(rets) == 1 and isinstance(rets[0].value, ast.ListComp):
+                                return self.expr(rets[0].value.elt, prod, stack, depth + 1)
                 if not apps:
                     return (False, "cannot find what is appended to %s" % base.id)
                 for c in apps:
-                    ok, why = self.expr(c.args[0] if c.args else None, fi, stack, depth + 1)
+                    ok, why = self.expr(c.args[0] if c.args else None, prod or fi, stack, depth + 1)
                     if not ok:
                         return (False, why)
                 return (True, "")
